@@ -2,8 +2,9 @@
 # keep_seed.sh <P> <V> <status: caught|missed> <text: which obligation / why>
 P=$1; V=$2; ST=$3; shift 3; TXT="$*"
 SRC=/tmp/seed/$P/out/$V; DST=/verif/seeded/$P-$V
-mkdir -p $DST && cp $SRC/patch.diff $SRC/demo_test.go $DST/ 
-python3 - "$SRC/meta.json" "$DST/meta.json" "$ST" "$TXT" <<'PY'
+mkdir -p $DST; META=$SRC/meta.json
+if [ -d "$SRC" ]; then cp $SRC/patch.diff $SRC/demo_test.go $DST/; else META=$DST/meta.json; fi
+python3 - "$META" "$DST/meta.json" "$ST" "$TXT" <<'PY'
 import json,sys
 src,dst,st,txt=sys.argv[1:5]
 try: m=json.load(open(src))
